@@ -9,6 +9,12 @@ CLAIMS = {
  "C01": dict(design="5/C01", tech=E1,
    text="Every program with up to 2 (quick) / 3 (thorough) faulty stages over a 10-behaviour alphabet x 3 flags x 7 result flavours is executed symbolically on the real TestCase.run/RunTest; z3 exhausts the selector space, so within the bound there is no program for which the run is not bracketed, has not exactly one outcome, or swallows a non-Exception.",
    note="Trusts CrossHair 0.0.110 + z3 path exhaustion ('Confirmed over all paths'), the result doubles shipped with testtools, and the reference semantics in vf/lifecycle.py written from the property statement. Bounds: <=2 cleanups, <=3 faults."),
+ "C02": dict(design="5/C02", tech=E1,
+   text="Programs of 3 stages x behaviours plus 0..2 (quick) / 0..3 (thorough) registered actions (cleanups, patches of present/absent attributes, fixtures ok/failing/nested) at 5 registration sites are run twice on one instance; execution log (with the patched attribute's value visible in each entry) is compared with a reference interpreter of the statement; exhaustive within the bound.",
+   note="Trusts CrossHair/z3 path exhaustion, fixtures 4.3.2, the reference interpreter in vf/harness/c02.py."),
+ "C16": dict(design="5/C16", tech=E1 + "; symbolic byte payloads, chunk sizes and offsets",
+   text="Chunk reader on symbolic data bytes/chunk sizes/offsets (all values within length bound), real-file reader, chunk-independent decoding for every pair of cut positions over a class-representative alphabet, Content equality on symbolic bytes, ContentType MIME round trip over a token/value alphabet, snapshot semantics; exhaustive within the bounds.",
+   note="Stream modelled by ModelStream (io.BytesIO contract); codecs are CPython's (text is a finite alphabet); open known finding F9 (charset containing a comma) is excluded by class."),
  "C03": dict(design="5/C03", tech=E1,
    text="Same program space as C01 with the soundness oracle (success iff nothing raised; single exception maps by type with user handlers first; a failure/error is never downgraded) plus a handler-precedence harness; exhaustive within the bound.",
    note="As C01. 'failure or error' = failureException, other Exception, MultipleExceptions constituents."),
